@@ -95,19 +95,31 @@ def hostkey(alg, idx=0):
 
 
 # ---- moduli ---------------------------------------------------------------------
+CURRENT_PACK = None  # pack of the innermost server_moduli() context; Lab also sets it on the server *instance*,
+# because Transport.stop_thread() resets the class attribute whenever any transport is closed
+
+
 @contextlib.contextmanager
 def server_moduli(groups=("14",)):
     """Load a moduli pack (RFC 3526 MODP primes taken from the tree's own
     kex_group14 / kex_group16 modules) through the public
     `Transport.load_server_moduli`.  The pack is a process-wide class
     attribute: it is reset on exit."""
+    from paramiko.kex_group1 import KexGroup1
     from paramiko.kex_group14 import KexGroup14
     from paramiko.kex_group16 import KexGroup16SHA512
 
-    primes = {"14": KexGroup14.P, "16": KexGroup16SHA512.P}
+    # "1" = 1024-bit Oakley group 2, "14"/"16" = RFC 3526 2048/4096 bit, "18" = RFC 3526 8192 bit (computed from
+    # the RFC formula, checked against the tree's 2048/4096 constants and Miller-Rabin, cached in vf/data/)
+    primes = {"1": KexGroup1.P, "14": KexGroup14.P, "16": KexGroup16SHA512.P}
+    if "18" in groups:
+        with open(os.path.join(os.path.dirname(os.path.abspath(__file__)), "data", "modp8192.hex")) as f:
+            primes["18"] = int(f.read().strip(), 16)
     d = tempfile.mkdtemp(prefix="vf-moduli-")
     fn = os.path.join(d, "moduli")
+    global CURRENT_PACK
     prev = Transport._modulus_pack
+    prev_cur = CURRENT_PACK
     try:
         with open(fn, "w") as f:
             f.write("# time type tests tries size generator modulus\n")
@@ -118,9 +130,11 @@ def server_moduli(groups=("14",)):
         pack = Transport._modulus_pack
         if not ok or pack is None or not pack.pack:
             raise RuntimeError("moduli file was not accepted by ModulusPack")
+        CURRENT_PACK = pack
         yield pack
     finally:
         Transport._modulus_pack = prev
+        CURRENT_PACK = prev_cur
         shutil.rmtree(d, ignore_errors=True)
 
 
@@ -158,7 +172,7 @@ class KH:
         def wrapped(k, h, _o=orig, _t=t, _s=side):
             r = _o(k, h)
             with self.lock:
-                self.calls[_s].append(dict(K=k, H=h, sid=_t.session_id))
+                self.calls[_s].append(dict(K=k, H=h, sid=_t.session_id, engine=type(_t.kex_engine)))
             return r
 
         t._set_K_H = wrapped
@@ -217,6 +231,8 @@ class Lab:
         self.pair = pair.Pair(rng=rng, client_kw=ckw, server_kw=skw, host_keys=host_keys, link=self.link,
                               recorder=self.rec, server=server)
         self.tc, self.ts = self.pair.tc, self.pair.ts
+        if CURRENT_PACK is not None:
+            self.ts._modulus_pack = CURRENT_PACK
         if kex is not None:
             self.tc.get_security_options().kex = [kex]
         if hostalg is not None:
